@@ -8,7 +8,7 @@
     action/evidence/release.go      runReleaseTransaction
     data/evidence/store.go          PerformAllegation, Vote, HandleRelease, IsFrozenValidator,
                                     CheckRequestExists (iterates COMMITTED keys only)
-    data/evidence/allegation.go     CleanTracker (with its `make([]string, len)` + append quirk)
+    data/evidence/allegation.go     CleanTracker
     data/evidence/history.go        IsFrozen, ReleaseReady
     data/evidence/status.go         IsActiveValidator
     identity/validator_set_allegation.go  CheckMaliciousValidators, ExecuteAllegationTracker
@@ -18,9 +18,10 @@
     action/staking/{stake,unstake,withdraw}.go   the IsFrozenValidator / CheckRequestExists guards
 
   The model is written against decoded records (addresses and request ids are the lower-case
-  hex strings of their bytes, so `String` order is the byte order Go sorts by).  The `float64`
-  / `big.Float` expressions of the tally are PARAMETERS (`FloatOps`); `exactOps` is their
-  exact-rational reading, and every theorem that needs it says so (`Exact F`).
+  hex strings of their bytes, so `String` order is the byte order Go sorts by).  The thresholds
+  of the tally are integer arithmetic (since 1d3139c); the one remaining floating-point
+  expression, the `big.Float` penalty, is a PARAMETER (`FloatOps`); `exactOps` is its
+  exact-rational reading, and the theorem that needs it says so (`Exact F`).
   Block times are whole seconds UTC, so `AddDate(0,0,d)` is `+ 86400·d`.
   Core-only (linked into the driver).
 -/
@@ -127,11 +128,13 @@ def isFrozen (st : State) (a : Addr) : Bool :=
   | none => false
   | some s => isFrozenRec s
 
-/-- `EvidenceStore.IsActiveValidator` -/
-def isActive (st : State) (a : Addr) : Bool :=
-  match alookup a st.vstat with
+/-- `EvidenceStore.IsActiveValidator`, on the status records -/
+def isActiveIn (vs : List (Addr × VStat)) (a : Addr) : Bool :=
+  match alookup a vs with
   | none => false
   | some v => v.active
+
+def isActive (st : State) (a : Addr) : Bool := isActiveIn st.vstat a
 
 /-- `EvidenceStore.CheckRequestExists`: `IterateRequests` walks the keys of the committed tree and
     reads their current values, so a request created in the running block is not seen -/
@@ -160,12 +163,11 @@ def cleanLoop : List ReqId → List Addr → List (ReqId × Request) → List (R
       if seen.contains ar.accused then cleanLoop rs seen (aerase reqs r)
       else cleanLoop rs (ar.accused :: seen) reqs
 
-/-- `CleanTracker`: `requestIdList := make([]string, len(at.Requests))` FOLLOWED BY `append`, so the
-    list starts with `len` empty strings; `order` is the order the Go map range produced the keys
-    (a permutation of the tracker) — it is sorted before use. The local copy of the tracker is
-    never saved, so the only effect is the deletion of requests. -/
+/-- `CleanTracker`: the tracker keys, sorted; `order` is the order the Go map range produced them
+    (a permutation of the tracker). The local copy of the tracker is never saved, so the only
+    effect is the deletion of requests. -/
 def cleanTrackerWith (order : List ReqId) (st : State) : State :=
-  { st with reqs := cleanLoop (sortIds (List.replicate order.length "" ++ order)) [] st.reqs }
+  { st with reqs := cleanLoop (sortIds order) [] st.reqs }
 
 def cleanTracker (st : State) : State := cleanTrackerWith st.tracker st
 
@@ -261,19 +263,19 @@ def addToAddress (st : State) (val deleg : Addr) (c : Int) : State :=
             vd := upsert st.vd (val, deleg) (getI st.vd (val, deleg) + c),
             de := upsert st.de deleg (getI st.de deleg + c) }
 
-/-- `DelegationStore.MinusFromAddress`: three debits one after the other, each written before
-    the next is checked (`Amount.Minus` fails on a negative result); `false` = an error was returned
-    and the writes made so far STAY (no session around the block-end hook) -/
+/-- `DelegationStore.MinusFromAddress` (7abde80): the three amounts are checked (`Amount.Minus`
+    fails on a negative result) before the first of them is written; `false` = an error was
+    returned and nothing was written -/
 def minusFromAddress (st : State) (val deleg : Addr) (c : Int) : State × Bool :=
   let t := getI st.total val
-  if t - c < 0 then (st, false) else
-  let st1 := { st with total := upsert st.total val (t - c) }
-  let e := getI st1.vd (val, deleg)
-  if e - c < 0 then (st1, false) else
-  let st2 := { st1 with vd := upsert st1.vd (val, deleg) (e - c) }
-  let d := getI st2.de deleg
-  if d - c < 0 then (st2, false) else
-  ({ st2 with de := upsert st2.de deleg (d - c) }, true)
+  let e := getI st.vd (val, deleg)
+  let d := getI st.de deleg
+  if t - c < 0 then (st, false)
+  else if e - c < 0 then (st, false)
+  else if d - c < 0 then (st, false)
+  else ({ st with total := upsert st.total val (t - c),
+                  vd := upsert st.vd (val, deleg) (e - c),
+                  de := upsert st.de deleg (d - c) }, true)
 
 /-- STAKE: `IsFrozenValidator(ValidatorAddress)` guard, then the delegation record
     (balance debit and validator record: C11) -/
@@ -289,19 +291,28 @@ def runUnstake (st : State) (val stakeAddr : Addr) (amt : Int) : Res × State :=
     | (st', true) => (.ok, st')
     | (_, false) => (.insufficient, st)
 
-/-- WITHDRAW: the frozen guard looks at the `ValidatorAddress` FIELD of the message; the amount
-    comes out of the bounded stake of the `StakeAddress` -/
-def runWithdraw (st : State) (val stakeAddr : Addr) (amt : Int) : Res × State :=
+/-- the second guard of WITHDRAW (df2e1ab, 92417eb): `ctx.Validators.Iterate` walks the validator
+    records (keys of the committed tree, CURRENT values: `vals`, they belong to C11) and asks
+    `IsFrozenValidator` — which reads through the block cache — for each record whose stake
+    address is the one the money would leave -/
+def frozenOwner (st : State) (vals : List (Addr × ValRec)) (stakeAddr : Addr) : Bool :=
+  vals.any fun p => p.2.stakeAddr == stakeAddr && isFrozen st p.1
+
+/-- WITHDRAW: frozen guard on the `ValidatorAddress` field, frozen guard on the owner of the
+    `StakeAddress`, then the amount comes out of the bounded stake of the `StakeAddress` -/
+def runWithdraw (st : State) (vals : List (Addr × ValRec)) (val stakeAddr : Addr) (amt : Int) : Res × State :=
   if isFrozen st val then (.frozen, st)
+  else if frozenOwner st vals stakeAddr then (.frozen, st)
   else
     let b := getI st.db stakeAddr
     if b - amt < 0 then (.insufficient, st)
     else (.ok, { st with db := upsert st.db stakeAddr (b - amt) })
 
 /-- what the correspondence compares for the three staking kinds: the guards only -/
-def stakingGuard (st : State) (kind : String) (val : Addr) : Res :=
+def stakingGuard (st : State) (vals : List (Addr × ValRec)) (kind : String) (val stakeAddr : Addr) : Res :=
   if isFrozen st val then .frozen
   else if kind == "unstake" && requestExists st val then .openRequest
+  else if kind == "withdraw" && frozenOwner st vals stakeAddr then .frozen
   else .ok
 
 /-! ## BeginBlock: CheckMaliciousValidators -/
@@ -309,9 +320,12 @@ def stakingGuard (st : State) (kind : String) (val : Addr) : Res :=
 def frozenSet (susp : List (Addr × Susp)) : List Addr :=
   (susp.filter fun p => isFrozenRec p.2).map (·.1)
 
-/-- one address of the cumulative-vote map -/
+/-- one address of the cumulative-vote map; an address that is already frozen (it is in the
+    `maliciousValidators` map, loaded first) is not recorded again (73dca0f) -/
 def beginStep (o : Opts) (h now : Int) (prev : List (Addr × ValRec)) (st : State) (p : Addr × Int) : State :=
   if p.2 < o.minVotesRequired then
+    if isFrozen st p.1 then st
+    else
     match alookup p.1 prev with
     | none => st
     | some _ =>
@@ -324,16 +338,14 @@ def beginStep (o : Opts) (h now : Int) (prev : List (Addr × ValRec)) (st : Stat
         else st
   else st
 
-/-- `CheckMaliciousValidators` (state part): nothing at all while `height ≤ BlockVotesDiff` -/
+/-- `CheckMaliciousValidators` (state part): no missed-votes check while `height ≤ BlockVotesDiff` -/
 def beginBlock (o : Opts) (h now : Int) (cv : List (Addr × Int)) (prev : List (Addr × ValRec)) (st : State) : State :=
   if h ≤ o.blockVotesDiff then st
   else (cv.mergeSort fun a b => leS a.1 b.1).foldl (beginStep o h now prev) st
 
-/-- the volatile `maliciousValidators` map the election consults: EMPTY while
-    `height ≤ BlockVotesDiff` (early return before the frozen records are fetched), otherwise the
-    frozen records as of the end of `CheckMaliciousValidators` -/
-def malOf (h diff : Int) (suspAfterBegin : List (Addr × Susp)) : List Addr :=
-  if h ≤ diff then [] else frozenSet suspAfterBegin
+/-- the volatile `maliciousValidators` map the election consults: the frozen records as of the
+    end of `CheckMaliciousValidators`, at every height (7eb2406) -/
+def malOf (suspAfterBegin : List (Addr × Susp)) : List Addr := frozenSet suspAfterBegin
 
 /-! ## EndBlock, first half: the election loop of GetEndBlockUpdate -/
 
@@ -356,23 +368,18 @@ def elect (minSelf top h : Int) (mal : List Addr) (pop : List (Addr × Int)) (vs
 
 /-! ## EndBlock, second half: ExecuteAllegationTracker -/
 
-/-- the floating-point expressions of the tally -/
+/-- the one floating-point expression left in the tally -/
 structure FloatOps where
-  /-- `int(math.Ceil(float64(active) * float64(votePct) / float64(voteDec)))` -/
-  required : Int → Opts → Int
-  /-- `float64(yes)/float64(required) > float64(allegPct)/float64(allegDec)` -/
-  guiltyGt : Int → Int → Opts → Bool
-  /-- `float64(no)/float64(required) > 1 - float64(allegPct)/float64(allegDec)` -/
-  innocentGt : Int → Int → Opts → Bool
   /-- `Int(stake·basePct/baseDec + 0.5)` in `big.Float` -/
   penalty : Int → Opts → Int
 
 /-- the exact-rational reading -/
 def exactOps : FloatOps where
-  required := fun active o => (active * o.votePct + o.voteDec - 1) / o.voteDec
-  guiltyGt := fun yes req o => decide (yes * o.allegDec > o.allegPct * req)
-  innocentGt := fun no req o => decide (no * o.allegDec > (o.allegDec - o.allegPct) * req)
   penalty := fun stake o => (2 * stake * o.penBasePct + o.penBaseDec) / (2 * o.penBaseDec)
+
+/-- `requiredVotesCount = (activeCount*votePct + voteDec - 1) / voteDec` (Go integer division
+    truncates toward zero) -/
+def requiredVotes (active : Int) (o : Opts) : Int := Int.tdiv (active * o.votePct + o.voteDec - 1) o.voteDec
 
 structure Env where
   height : Int
@@ -381,6 +388,8 @@ structure Env where
   opts : Opts
   /-- validator records of the previous version (`GetVersioned(lastHeight-1, …)`) -/
   prev : List (Addr × ValRec)
+  /-- validator records as they are when the tally runs (`vs.Get`, through the block cache) -/
+  cur : List (Addr × ValRec)
 
 def countChoice (c : Int) (vs : List Vote) : Int := ((vs.filter fun v => v.choice == c).length : Nat)
 
@@ -388,14 +397,27 @@ inductive Verdict where
   | guilty | innocent | none
   deriving DecidableEq, Repr
 
-/-- the decision of the loop body: yes test first, `else if` no test -/
-def verdictOf (F : FloatOps) (env : Env) (ar : Request) : Verdict :=
-  let req := F.required env.active env.opts
-  if F.guiltyGt (countChoice 1 ar.votes) req env.opts then .guilty
-  else if F.innocentGt (countChoice 2 ar.votes) req env.opts then .innocent
+/-- the votes the tally counts: those of addresses whose status record is active NOW, i.e. as
+    rewritten by this block's election pass (6709f41) -/
+def activeVotes (vs : List (Addr × VStat)) (ar : Request) : List Vote := ar.votes.filter fun v => isActiveIn vs v.addr
+
+/-- the decision of the loop body, in integers (1d3139c): yes test first, `else if` no test;
+    `vs` are the status records at the time of the tally -/
+def verdictOf (env : Env) (vs : List (Addr × VStat)) (ar : Request) : Verdict :=
+  let req := requiredVotes env.active env.opts
+  let o := env.opts
+  if countChoice 1 (activeVotes vs ar) * o.allegDec > o.allegPct * req then .guilty
+  else if countChoice 2 (activeVotes vs ar) * o.allegDec > (o.allegDec - o.allegPct) * req then .innocent
   else .none
 
 def e18 : Int := 1000000000000000000
+
+/-- the stake address a slash charges (ebb3d1d): the one of the validator's CURRENT record when
+    there is one, else the one of the previous block's record -/
+def slashAddr (env : Env) (accused : Addr) (v : ValRec) : Addr :=
+  match alookup accused env.cur with
+  | some c => c.stakeAddr
+  | none => v.stakeAddr
 
 /-- the body of the `for _, requestID := range requestIDs` loop; the second component collects
     `addrToDelete` -/
@@ -404,7 +426,7 @@ def tallyOne (F : FloatOps) (env : Env) (acc : State × List ReqId) (id : ReqId)
   match alookup id st.reqs with
   | none => (st, del)
   | some ar =>
-    match verdictOf F env ar with
+    match verdictOf env st.vstat ar with
     | .guilty =>
       -- CreateSuspiciousValidator overwrites whatever record the address had
       let st1 := { st with susp := upsert st.susp ar.accused ⟨2, env.height, env.time, 0, none⟩ }
@@ -414,9 +436,10 @@ def tallyOne (F : FloatOps) (env : Env) (acc : State × List ReqId) (id : ReqId)
         let amt := getI st1.total ar.accused
         let p := F.penalty amt env.opts
         let b := p * e18 * env.opts.bountyPct / env.opts.bountyDec
-        let (st2, ok) := minusFromAddress st1 ar.accused v.stakeAddr p
+        let (st2, ok) := minusFromAddress st1 ar.accused (slashAddr env ar.accused v) p
         let st3 := if ok then { st2 with bounty := st2.bounty + b } else st2
-        let st4 := { st3 with delayed := upsert st3.delayed (env.height, ar.accused) p }
+        -- the power update is postponed to the next block, only when something was taken (ebb3d1d)
+        let st4 := if ok then { st3 with delayed := upsert st3.delayed (env.height, ar.accused) p } else st3
         -- SetAllegationRequest (status GUILTY) immediately followed by DeleteAllegationRequest
         ({ st4 with reqs := aerase st4.reqs id }, del ++ [id])
     | .innocent => ({ st with reqs := aerase st.reqs id }, del ++ [id])
@@ -426,6 +449,7 @@ def tallyOne (F : FloatOps) (env : Env) (acc : State × List ReqId) (id : ReqId)
     ranges (inside `CleanTracker`, and over `at.Requests`) produced the tracker keys -/
 def tallyWith (F : FloatOps) (env : Env) (ordClean ordTally : List ReqId) (st : State) : State :=
   if env.active = 0 then st
+  else if env.opts.voteDec ≤ 0 ∨ env.opts.allegDec ≤ 0 then st   -- "Evidence options without decimals"
   else
     let at' := st.tracker
     let st0 := cleanTrackerWith ordClean st
@@ -443,9 +467,9 @@ inductive Op where
   | release (days : Int) (val : Addr) (h now : Int) (sig fee : Bool)
   | stake (val stakeAddr : Addr) (amt : Int)
   | unstake (val stakeAddr : Addr) (amt : Int)
-  | withdraw (val stakeAddr : Addr) (amt : Int)
+  | withdraw (vals : List (Addr × ValRec)) (val stakeAddr : Addr) (amt : Int)
   | beginBlock (o : Opts) (h now : Int) (cv : List (Addr × Int)) (prev : List (Addr × ValRec))
-  | elect (minSelf top h diff : Int) (pop : List (Addr × Int))
+  | elect (minSelf top h : Int) (pop : List (Addr × Int))
   | tally (F : FloatOps) (env : Env)
   | commit
 
@@ -458,10 +482,10 @@ def step (st : State) : Op → State
   | .release days val h now sig fee => (txRelease st days val h now sig fee).2
   | .stake v s a => (runStake st v s a).2
   | .unstake v s a => (runUnstake st v s a).2
-  | .withdraw v s a => (runWithdraw st v s a).2
+  | .withdraw vals v s a => (runWithdraw st vals v s a).2
   | .beginBlock o h now cv prev => beginBlock o h now cv prev st
-  | .elect minSelf top h diff pop =>
-    { st with vstat := (elect minSelf top h (malOf h diff st.susp) pop st.vstat).vstat }
+  | .elect minSelf top h pop =>
+    { st with vstat := (elect minSelf top h (malOf st.susp) pop st.vstat).vstat }
   | .tally F env => tally F env st
   | .commit => { st with committed := akeys st.reqs }
 
